@@ -354,6 +354,10 @@ class Engine:
 
     def sv_of(self, ctx, val, ty):
         """Convert a value to a structured value of type ty (for storing into the state)."""
+        from .externals import NewCounter
+        if isinstance(val, NewCounter) and isinstance(ty, Leaf) and ty.sort == 'V' and self.ext.counter_atom is not None:
+            ctx.notes.append(('counter_init', val.start))
+            return SV(ty, {'': self.ext.counter_atom})
         if isinstance(ty, Leaf):
             if ty.sort == 'V':
                 return SV(ty, {'': self.to_v(ctx, val)})
@@ -377,6 +381,11 @@ class Engine:
             if h.kind == 'map':
                 if isinstance(h.data, dict) and not h.data:
                     return SV.empty(ty)
+                if isinstance(h.data, dict) and isinstance(ty, MapT):
+                    sv = SV.empty(ty)
+                    for k, item in h.data.items():
+                        sv = sv.with_child(('k', k), self.sv_of(ctx, item, ty.val))
+                    return sv
                 if isinstance(h.data, SV) and repr(h.data.ty) == repr(ty):
                     return h.data
             if h.kind == 'list':
@@ -1284,6 +1293,19 @@ class Engine:
         if isinstance(s.value, ast.Constant):
             yield Out('next', ctx)
             return
+        if isinstance(s.value, ast.YieldFrom):
+            # a generator whose only yield is a trailing `yield from <iterable>` produces that iterable's items
+            from .loops import GenSeq, _iterable
+            for c, v in self.ev(s.value.value, ctx):
+                if isinstance(v, Raised):
+                    yield Out('raise', c, v.exc)
+                    continue
+                what, coll = _iterable(self, c, v)
+                if what == 'seq':
+                    raise Unsupported('yield from a sequence')
+                c.notes.append(('generator',))
+                yield Out('return', c, GenSeq(what, coll))
+            return
         for c, v in self.ev(s.value, ctx):
             yield Out('raise', c, v.exc) if isinstance(v, Raised) else Out('next', c)
 
@@ -1456,6 +1478,14 @@ class Engine:
             k = self.to_v(ctx, key)
             if isinstance(ty, MapT):
                 self.store(ctx, Ref(cont.obj, cont.field, cont.path + (('k', k),)), self.sv_of(ctx, v, ty.val))
+                inits = [n for n in ctx.notes if n[0] == 'counter_init']
+                if inits:
+                    ctx.notes = [n for n in ctx.notes if n[0] != 'counter_init']
+                    cf = self.ext.counter_fields.get((cont.obj, cont.field))
+                    if cf is None or len(cont.path) != 0 or len(inits) != 1:
+                        raise Unsupported('itertools.count stored somewhere that is not a modelled counter slot')
+                    g = ctx.st.get(*cf)
+                    ctx.st = ctx.st.set(cf[0], cf[1], g.with_child(('k', k), SV(Leaf('I'), {'': self.to_i(ctx, inits[0][1])})))
                 yield ctx, None
                 return
             if isinstance(ty, BidictT):
